@@ -19,6 +19,8 @@ for mp in sorted(glob.glob(os.path.join(HERE, "seeded", "*", "meta.json"))):
         if isinstance(r[prop], dict) and r[prop].get("rc") in (1, 2) and r[prop].get("classes"):
             cls = [c.split("|")[0].split(":", 1)[1] for c in r[prop]["classes"][:2]]
             by.append("%s (%s)" % (prop, ", ".join("`%s`" % c for c in cls)))
+    if m.get("status"):
+        by = []  # (a result from before the neutralising repair says nothing about the current head)
     if by:
         caught += 1
     needs = m["needs_to_manifest"].replace("|", "\\|")
